@@ -135,14 +135,14 @@ def run(chk, repo: Repo):
                        "(form tests and message texts excluded; precision-type parameters grouped)", floor=9)
     chk.rule("C03-R2", "no gradient implementation falls off its end, returns None, or constructs an exception without raising it", floor=20)
     chk.rule("C03-R3", "chain-rule guards dominate; identity-geometry guards test the exact type; sum rule at one argument", floor=12)
-    chk.rule("C03-R4", "support predicate of the gradient equals that of the log-density; out-of-support gradients are NaN", floor=5)
+    chk.rule("C03-R4", "support predicate of the gradient equals that of the log-density; out-of-support gradients are NaN; component-wise support tests are aggregated with any()", floor=5)
     chk.rule("C03-R5", "FD switch: Density.gradient tests FD_enabled first and differentiates self.logd; Likelihood forwards the switch", floor=6)
     _r1(chk, repo)
     _r2(chk, repo)
     _r3(chk, repo)
     _r4(chk, repo)
     _r5(chk, repo)
-    chk.rule("C03-R6", "Gaussian gradient applies the precision in the orientation of the log-density: sqrtprec.T @ (sqrtprec @ residual)", floor=2)
+    chk.rule("C03-R6", "Gaussian gradient applies the precision in the orientation of the log-density: sqrtprec.T @ (sqrtprec @ residual), never the square root twice in one orientation", floor=2)
     from ..gram import gram_orientation
     gram_orientation(chk, repo, "C03-R6", only={"Gaussian._gradient"})
     from ..gram import same_orientation_application
